@@ -39,7 +39,9 @@ static const Profile& find_profile(const std::string& n) {
 
 static const char* const g_handle_pool[] = {"a",     "b",  "nick", "my handle", "H-1",    "euler_1d", "A",      "",
                                             "  ",    "x#1", "z z",  "heat",      "TWIN",   "h_3",      "-",      "a ",
-                                            "Nick",  "B",  "q.q",  "sol-2",     "masa_uninit", "c c c",   "0",      "long_handle_name_that_is_not_short"};
+                                            "Nick",  "B",  "q.q",  "sol-2",     "masa_uninit", "c c c",   "0",      "long_handle_name_that_is_not_short",
+                                            "a_handle_that_is_seventy_characters_long_0123456789_0123456789_0123456",
+                                            "a_handle_of_one_hundred_and_thirty_characters_0123456789_0123456789_0123456789_0123456789_0123456789_0123456789_0123456789_012345678"};
 static const int g_num_handles = (int)(sizeof(g_handle_pool) / sizeof(g_handle_pool[0]));
 static const double g_wild[] = {0.0, -0.0, 4.9406564584124654e-324, 2.2250738585072014e-308, 1e300, -1e300, -12345.67, -20.0,
                                 -1.33, 1.0, -1.0, 12345.67, 3.14, 1e-10, 7.0, 0.5};
@@ -63,7 +65,7 @@ static std::string decorate(Rng& r, const std::string& name, bool change_case, b
 }
 static std::string near_miss(Rng& r, const std::string& name, const std::vector<Client>& clients) {
   std::string o = name;
-  switch (r.uni(12)) {
+  switch (r.uni(13)) {
     case 0: o.erase(std::remove(o.begin(), o.end(), '_'), o.end()); break;
     case 1: std::replace(o.begin(), o.end(), '_', '-'); break;
     case 2: o += "x"; break;
@@ -75,6 +77,13 @@ static std::string near_miss(Rng& r, const std::string& name, const std::vector<
     case 8: o.insert((size_t)r.uni((int)o.size() + 1), 1, '_'); break;
     case 9: if (!clients.empty() && !clients[0].handles.empty()) o = clients[0].handles[0]; else o = "handle"; break;
     case 10: o = o + o; break;
+    case 11: {  // a catalogue name, a long run of separators, then junk: a fixed-size copy would cut the junk off
+      static const int total[] = {40, 64, 65, 128, 129, 256, 300};
+      size_t want = (size_t)total[r.uni(7)];
+      while (o.size() < want) o.push_back(r.bern(0.5) ? ' ' : '-');
+      o += "junk";
+      break;
+    }
     default: if (o.size() > 2) o.erase((size_t)r.uni((int)o.size()), 1); break;
   }
   if (r.bern(0.3)) o = decorate(r, o, true, true);
@@ -94,6 +103,7 @@ static int pick_solution(Rng& r, const std::string& profile) {
     if (profile == "C10" && cb) w[(size_t)i] = 20;
     if ((profile == "C11" || profile == "C19" || profile == "C17") && vec) w[(size_t)i] = 40;
     if (profile == "C12" && cb) w[(size_t)i] = 20;
+    if (profile == "C12" && cached) w[(size_t)i] = 20;  // twins of solutions with cached members: shared state shows
     if (nm == "navierstokes_4d_compressible_powerlaw" && profile != "C11" && profile != "C14") w[(size_t)i] = 4;  // 205 parameters: slow
   }
   return r.pickw(w);
